@@ -46,8 +46,23 @@ def source_array(spec):
     if dt.kind == "b":
         a = r.random(shape) < 0.5
     elif dt.kind in "iu":
-        lo, hi = (0, 6) if spec.get("ties") else ((0, 200) if dt.kind == "u" else (-99, 100))
-        a = r.integers(lo, hi, size=shape).astype(dt)
+        if spec.get("perm"):
+            # distinct POSITIONS of an axis of length perm (signed dtypes: about half spelled negatively, p - n)
+            n = int(spec["perm"])
+            size = int(np.prod(shape, dtype=int))
+            pos = r.permutation(n)[:size]
+            if len(pos) < size:
+                pos = np.concatenate([pos, r.integers(0, max(n, 1), size=size - len(pos))])
+            pos = pos.reshape(shape)
+            if dt.kind == "i":
+                pos = np.where(r.random(shape) < 0.5, pos - n, pos)
+            a = pos.astype(dt)
+        else:
+            if spec.get("range"):
+                lo, hi = spec["range"]  # half-open, e.g. [-n, n) for indices into an axis of length n
+            else:
+                lo, hi = (0, 6) if spec.get("ties") else ((0, 200) if dt.kind == "u" else (-99, 100))
+            a = r.integers(lo, hi, size=shape).astype(dt)
     elif dt.kind == "c":
         a = (np.round(r.normal(size=shape) * 8, 3) + 1j * np.round(r.normal(size=shape) * 8, 3)).astype(dt)
     else:
@@ -61,6 +76,8 @@ def source_array(spec):
         if frac and a.size:
             m = r.random(shape) < frac
             a[m] = np.nan
+    if spec.get("sorted") and a.ndim == 1:
+        a = np.sort(a)
     return np.ascontiguousarray(a)
 
 
@@ -249,6 +266,45 @@ def flatten_outputs(da, out):
 # ---------------------------------------------------------------------------------------- run_case
 
 MUTATION_KINDS = ("dependency-mutated", "value-changed-after-creation", "source-mutated", "source-collection-changed")
+OWNERSHIP_KINDS = ("result-aliases-held-data",)
+
+
+def snapshot(v):
+    """private copy of a result (a result may BE a block held in the graph: comparisons must not follow later writes)"""
+    if isinstance(v, np.ndarray):
+        return v.copy()
+    if isinstance(v, (list, tuple)):
+        return type(v)(snapshot(e) for e in v)
+    return v
+
+
+def scribble(arrays):
+    """what a user may do with arrays compute() RETURNED: overwrite them in place.  Returns how many were overwritten."""
+    n = 0
+    for g in arrays:
+        if isinstance(g, np.ndarray) and g.size and g.flags.writeable:
+            try:
+                if g.dtype.kind == "b":
+                    g[...] = ~np.asarray(g)
+                elif g.dtype.kind in "iufc":
+                    g[...] = 77
+                else:
+                    continue
+                n += 1
+            except Exception:
+                pass
+    return n
+
+
+def held_arrays(*graphs_):
+    """NumPy arrays stored as DATA in graphs (persisted blocks, from_array blocks)"""
+    out = []
+    for dsk in graphs_:
+        for v in dsk.values():
+            v = getattr(v, "value", v)
+            if isinstance(v, np.ndarray) and v.size:
+                out.append(v)
+    return out
 SCHEDULE_KINDS = ("order-dependent-outcome", "order-dependent-result", "recompute-differs", "threads-differ", "store-target-wrong")
 
 
@@ -287,12 +343,16 @@ def run_case(ctx, case, count=True):
 
     def collapse():
         out = []
-        for name, kinds in (("mutates-input", MUTATION_KINDS), ("schedule-dependent", SCHEDULE_KINDS)):
+        for name, kinds in (("result-aliased", OWNERSHIP_KINDS), ("mutates-input", MUTATION_KINDS), ("schedule-dependent", SCHEDULE_KINDS)):
             ds = []
             for k in kinds:
                 d = next((d for kk, d in raw if kk == k), None)
                 if d is not None:
                     ds.append(f"[{k}] {d}")
+            if ds and name == "result-aliased":
+                # the finalizer's business, whatever the operation: one signature
+                out.append(("result-aliased:compute", " ;; ".join(ds)[:900]))
+                continue
             if ds and not (name == "schedule-dependent" and out):
                 who = op
                 # every mutating task belongs to the sibling consumer (x.cumsum / -x), not to the operation of the case
@@ -344,11 +404,15 @@ def run_case(ctx, case, count=True):
         nout = len(outs)
         try:
             dsk = {}
+            held = []  # data held in the graphs (per root: a persisted collection and its from_array twin share key names)
             for r in roots:
-                dsk.update(dict(r.__dask_graph__()))
+                g = dict(r.__dask_graph__())
+                held += held_arrays(g)
+                dsk.update(g)
             tasks = graphs.to_tasks(dsk)
             missing, cycle = graphs.check_closed_acyclic(tasks)
             jdsk, jkeys = joint_graph(roots)
+            held += held_arrays(jdsk)
             jtasks = graphs.to_tasks(jdsk)
             jmissing, jcycle = graphs.check_closed_acyclic(jtasks)
         except Exception as e:
@@ -372,7 +436,7 @@ def run_case(ctx, case, count=True):
                 values, muts = execute(tasks if which == "merged" else jtasks, rng=random.Random(oseed) if oseed is not None else None,
                                        order=oname, allowed=allowed)
                 res = [graphs.assemble(r, values) for r in roots] if which == "merged" else [values[k] for k in jkeys]
-                outcome = ("ok", res)
+                outcome = ("ok", [snapshot(v) for v in res])
             except Exception as e:
                 muts = []
                 outcome = ("raise", f"{type(e).__name__}: {str(e)[:160]}")
@@ -415,7 +479,13 @@ def run_case(ctx, case, count=True):
                 ex.append(f"{op} {case['kw']} {[s['chunks'] for s in case['src']]}: {ref[1][:90]}")
             return collapse()
         # the stock schedulers, twice each: a second compute of the same graph must equal the first
+        # RESULT OWNERSHIP: every array a compute returned is then overwritten in place (the user's right); the next
+        # compute, the sources and the data held in the graphs (persisted blocks) must not notice
         last = None
+        aliased = []
+        scribbled = ""
+        mark = None
+        owned_broken = False
         for sched, kw, sig, reps in (("sync", {}, "recompute-differs", 2), ("threads", {"num_workers": 4}, "threads-differ", case.get("threads", 1))):
             for rep in range(reps):
                 try:
@@ -424,12 +494,36 @@ def run_case(ctx, case, count=True):
                     fail("order-dependent-outcome", f"instrumented orders succeed, compute(scheduler={sched!r}) run {rep} raises {type(e).__name__}: {str(e)[:160]}")
                     break
                 users_changed(f"during compute(scheduler={sched!r})")
-                last = got
                 for i, (a, b) in enumerate(zip(ref[1], got)):
                     if not same(a, b):
-                        fail(sig, f"root {i} ({'output' if i < nout else 'input/sibling'}): first serial execution vs compute({sched}) run {rep}: {head(a)} vs {head(b)}")
+                        fail(sig, f"root {i} ({'output' if i < nout else 'input/sibling'}): first serial execution vs compute({sched}) run {rep}{scribbled}: {head(a)} vs {head(b)}")
+                last = [snapshot(g) for g in got]
+                for i, g in enumerate(got):
+                    if isinstance(g, np.ndarray) and g.size and g.flags.writeable and not (allowed is not None and allowed(g)):
+                        if any(np.may_share_memory(g, h) and np.shares_memory(g, h) for h in held + user):
+                            aliased.append((i, sched))
+                if mark is None:
+                    mark = len(raw)
+                if scribble([g for g in got if not (allowed is not None and allowed(g))]):
+                    scribbled = " (after the arrays returned by the previous compute were overwritten in place)"
+                    note("cat.results_overwritten")
+                users_changed(f"when the arrays returned by compute(scheduler={sched!r}) were overwritten in place (a result aliases the user's array)")
                 if count:
                     ctx.count()
+        if aliased:
+            note("cat.result_aliases_held_data")
+            try:
+                again = dask.compute(*roots, scheduler="sync")
+                for i, (a, b) in enumerate(zip(ref[1], again)):
+                    if not same(a, b):
+                        # what the overwritten blocks did to later computes / to the sources is a consequence: one failure
+                        del raw[mark:]
+                        owned_broken = True
+                        fail("result-aliases-held-data", f"root {aliased[0][0]} returned by compute({aliased[0][1]}) is writeable and shares memory with data held in the graph "
+                             f"(persisted / source block); after overwriting the returned arrays in place, root {i} computes to {head(b)} instead of {head(a)}")
+                        break
+            except Exception as e:
+                fail("result-aliases-held-data", f"recompute after overwriting returned arrays raises {type(e).__name__}: {str(e)[:120]}")
         # the source afterwards
         # (the input collections A0 / X0 are roots: their values in the LAST compute are what x.compute() returns now)
         nsrc = len(X0)
@@ -442,6 +536,8 @@ def run_case(ctx, case, count=True):
                 fresh = raw_collection(da, s, ucopy[i].copy(), case["pre"]).compute(scheduler="sync")
             except Exception as e:
                 fail("order-dependent-outcome", f"computing source {i} afterwards raises {type(e).__name__}: {str(e)[:160]}")
+                continue
+            if owned_broken:
                 continue
             if not same(after, p):
                 fail("source-collection-changed", f"source {i}: x.compute() after the computation no longer returns the source data: {head(p)} -> {head(after)}")
